@@ -25,6 +25,36 @@ CLAIMED = {
         "open (lenient spellings) are neutral and never judged.",
         "5/C02",
     ),
+    "C03": (
+        "complete enumeration of the guard matrix + hypothesis random guards against the field reference model",
+        "Every built-in type x empty flag x 10 length declarations around the cell length x 3 allowed-character "
+        "settings x 4 formats x cells (empty, blanks, inside / outside length, a disallowed character at every "
+        "position) is observed through FieldFormat.validated and through cutplace.rows on streams and generated "
+        "ODS/XLSX files; the matrix is finite and enumerated completely, random lengths and ranges are sampled.",
+        "Trusts the guard part of vlib/model_fields.verdict; blank-only cells wider than a fixed field and fixed "
+        "cells padded with other white space are neutral.",
+        "5/C03",
+    ),
+    "C04": (
+        "hypothesis CIDs and tables in all four storage formats against a validation reference model",
+        "Generated CIDs (1-5 mixed fields, optional IsUnique/DistinctCount, header 0-2, sheet 1-2) and tables with "
+        "bad cells, short and long rows are read with on_error='yield' from streams, files, generated ODS and XLSX; "
+        "each output item is compared with vlib/model_validio.predict: verdict, error class, 0-based line, first "
+        "rejected column, location text and field name, see-also row, end-of-data verdict.",
+        "Trusts the per-field reference model (checked by C02/C03) and the independent ODS / XLSX producers.",
+        "5/C04",
+    ),
+    "C06": (
+        "hypothesis differential between the three error modes + generated container faults",
+        "The same generated CID and table are read in 'yield', 'continue' and 'raise' mode on fresh CIDs and the "
+        "three outputs must satisfy the relations of the statement (continue = rows of yield; raise = prefix + the "
+        "same error; counters add up); faults (undecodable byte, unterminated quote, short record, truncated / "
+        "corrupted / non-zip archive) injected at a generated row or offset must end every mode with "
+        "DataFormatError after a prefix of the fault-free output.",
+        "Relational oracle: the modes are compared with each other (that is the property); the fault-free output "
+        "itself is judged by C04.",
+        "5/C06",
+    ),
     "C11": (
         "complete enumeration of the property x format x value x spelling matrix against documented expectations",
         "Every data-format property is set in every format with every documented spelling of 105 code points, "
